@@ -389,7 +389,12 @@ def r36(ctx):
     f = tree.func(FACTORY, "assign_engines")
     fl = flow_of(f)
     cfg = fl.cfg
-    occ = "engine_occ"
+    params = [a.arg for a in f.args.args]
+    if len(params) < 3:
+        raise AnalysisError("R-3.6: assign_engines(engine_occ, eng_names, pin) expected")
+    occ, pin = params[0], params[2]
+    rets = [r.value.id for r in walk_local(f) if isinstance(r, ast.Return) and isinstance(r.value, ast.Name)]
+    outname = rets[0] if rets else None
     stores = [n for n in walk_local(f) if isinstance(n, ast.Assign) and any(isinstance(t, ast.Subscript) and isinstance(t.value, ast.Subscript) and path_of(t.value.value) == occ for t in n.targets)]
     claims = [s for s in stores if not (isinstance(s.value, ast.UnaryOp) or (isinstance(s.value, ast.Constant) and s.value.value == -1))]
     frees = [s for s in stores if s not in claims]
@@ -410,14 +415,14 @@ def r36(ctx):
                             sides = {ast.unparse(e.left), ast.unparse(e.comparators[0])}
                             if sides == {occvar, "-1"}:
                                 ok = True
-        if path_of(s.value) != "pin":
+        if path_of(s.value) != pin:
             ctx.bad(rid, s, "an engine instance is claimed for something other than the worker's pin")
         elif ok:
             ctx.ok(rid, s, f"engine claimed only under `occupied_by == -1` for the same ({key}, {idx})")
         else:
             ctx.bad(rid, s, "an engine instance is claimed without a dominating test that it is free (occupied_by == -1 on the same slot): two in-flight jobs could share one engine (exe_dir, random stream)")
         # returned index is the claimed one
-        outs = [o for o in walk_local(f) if isinstance(o, ast.Assign) and any(isinstance(tt, ast.Subscript) and path_of(tt.value) == "out" for tt in o.targets)]
+        outs = [o for o in walk_local(f) if isinstance(o, ast.Assign) and any(isinstance(tt, ast.Subscript) and path_of(tt.value) == outname for tt in o.targets)]
         good = [o for o in outs if ast.unparse(o.value) == idx and ast.unparse(o.targets[0].slice) == key and cfg.dominates(n, cfg.node_of(o))]
         if good and len(outs) == len(good):
             ctx.ok(rid, good[0], "the index returned for the engine type is the index just claimed")
@@ -428,8 +433,13 @@ def r36(ctx):
             if cfg.reaches(n, cfg.node_of(fr)):
                 ctx.bad(rid, fr, "engines are freed after the claim loop: a worker could free the engine it has just claimed")
     for fr in frees:
-        g = [ast.unparse(e).replace(" ", "") for e, t, _ in cfg.guards(cfg.node_of(fr)) if t]
-        if any(x in ("pin==occupied_by", "occupied_by==pin") for x in g):
+        # the loop variable that holds the occupant of the slot being freed
+        occvars = set()
+        for l in loops_of(fr):
+            if isinstance(l, ast.For) and isinstance(l.iter, ast.Call) and dotted(l.iter.func) == "enumerate" and isinstance(l.target, ast.Tuple) and len(l.target.elts) == 2:
+                occvars.add(ast.unparse(l.target.elts[1]))
+        g = [{ast.unparse(e.left), ast.unparse(e.comparators[0])} for e, t, _ in cfg.guards(cfg.node_of(fr)) if t and isinstance(e, ast.Compare) and len(e.ops) == 1 and isinstance(e.ops[0], ast.Eq)]
+        if any(x == {pin, ov} for x in g for ov in occvars):
             ctx.ok(rid, fr, "a worker frees only the engines it held itself (pin == occupied_by)")
         else:
             ctx.bad(rid, fr, "an engine is freed that is not held by the requesting worker")
